@@ -155,9 +155,66 @@ pub fn u_term(f: &F, min_components: usize, thorough: bool) -> Vec<LTerm> {
     }
     out.extend(reducible(f));
     out.extend(chains3(f));
+    out.extend(big_and_related(f));
     // deep: chains of every constructor, the nested component in every position
     for d in if thorough { vec![2usize, 3, 4, 5, 6, 7, 8, 15, 16, 17, 31, 32, 33, 64] } else { vec![2usize, 3, 8, 16, 17, 33, 64] } {
         out.extend(towers(f, d));
+    }
+    out
+}
+
+/// The size dimension and related siblings on the lexical side: 257 components in every connecter and set, a product of
+/// 600 one-element sets, a conjunction of 260 statements, three towers of depth 20 / 45 side by side, fat towers (five
+/// components on each of 16 / 40 levels), siblings whose names extend one another.
+pub fn big_and_related(f: &F) -> Vec<LTerm> {
+    let cb = &f.e.compound;
+    let set = |terms: Vec<LTerm>| LTerm::Set { left_bracket: cb.brackets_set_extension.0.to_string(), terms, right_bracket: cb.brackets_set_extension.1.to_string() };
+    let comp = |c: &str, terms: Vec<LTerm>| LTerm::Compound { connecter: c.to_string(), terms };
+    let stmt = |s: LTerm, p: LTerm| LTerm::Statement { copula: f.e.statement.copula_inheritance.to_string(), subject: Box::new(s), predicate: Box::new(p) };
+    let mut out = vec![];
+    let wide: Vec<LTerm> = (0..257).map(|i| atom("", &format!("w{i}"))).collect();
+    for c in f.connecters() {
+        out.push(comp(c, wide.clone()));
+    }
+    out.push(set(wide.clone()));
+    out.push(comp(cb.connecter_product, (0..600).map(|i| set(vec![atom("", &format!("s{i}"))])).collect()));
+    out.push(comp(cb.connecter_conjunction, (0..260).map(|i| stmt(atom("", &format!("a{i}")), atom("", &format!("b{i}")))).collect()));
+    for d in [20usize, 45] {
+        let tower = |leaf: &str| {
+            let mut t = atom("", leaf);
+            for _ in 0..d {
+                t = set(vec![t]);
+            }
+            t
+        };
+        out.push(comp(cb.connecter_product, vec![tower("a"), tower("b"), tower("c")]));
+        out.push(set(vec![tower("a"), tower("b"), tower("c")]));
+    }
+    for d in [16usize, 40] {
+        for last in [false, true] {
+            let mut t = atom("", "a");
+            for _ in 0..d {
+                let mut kids = vec![atom("", "b"), atom("", "c"), atom(f.e.atom.prefix_variable_independent, "d"), atom("", "e")];
+                if last {
+                    kids.push(t);
+                } else {
+                    kids.insert(0, t);
+                }
+                t = comp(cb.connecter_product, kids);
+            }
+            out.push(t);
+        }
+    }
+    for base in ["abc", "temperatureSens1", "temperatureSensor01", "aVeryLongNameThatGoesOnForFortyCharacter"] {
+        let (x, y) = (atom("", base), atom("", &format!("{base}2")));
+        for (p, q) in [(&x, &y), (&y, &x)] {
+            out.push(comp(cb.connecter_product, vec![p.clone(), q.clone()]));
+            out.push(comp(cb.connecter_conjunction, vec![p.clone(), q.clone(), atom("", "z")]));
+            out.push(set(vec![p.clone(), q.clone()]));
+            out.push(stmt(p.clone(), q.clone()));
+        }
+        let op = f.e.atom.prefix_operator;
+        out.push(comp(cb.connecter_product, vec![atom(op, base), atom(op, &format!("{base}2"))]));
     }
     out
 }
@@ -345,6 +402,10 @@ pub fn digit_strings() -> Vec<String> {
         v.push(s.clone());
     }
     v.extend(["9223372036854775807", "9223372036854775808", "18446744073709551615", "18446744073709551616", "9007199254740993", "99999", "9", "90", "19"].map(String::from));
+    // far longer than any machine number (the lexical model keeps numbers as text: a 70-digit fixed stamp is a stamp)
+    for k in [40usize, 62, 63, 64, 65, 70, 130] {
+        v.push("1234567890".repeat(13)[..k].to_string());
+    }
     v
 }
 
